@@ -118,8 +118,13 @@ class CombineCallsBaseCodemod(SimpleCodemod, NameResolutionMixin):
     ) -> cst.BooleanOperation:
         new_left = self.combine_calls(node.left, node.right.left)
         new_right = node.right.right
+        # Keep the parentheses of the original expression: it may span several lines
         return cst.BooleanOperation(
-            left=new_left, operator=node.right.operator, right=new_right
+            left=new_left,
+            operator=node.right.operator,
+            right=new_right,
+            lpar=node.lpar,
+            rpar=node.rpar,
         )
 
     def combine_boolop_or_call_fold_left(
@@ -127,6 +132,11 @@ class CombineCallsBaseCodemod(SimpleCodemod, NameResolutionMixin):
     ) -> cst.BooleanOperation:
         new_left = node.left.left
         new_right = self.combine_calls(node.left.right, node.right)
+        # Keep the parentheses of the original expression: it may span several lines
         return cst.BooleanOperation(
-            left=new_left, operator=node.left.operator, right=new_right
+            left=new_left,
+            operator=node.left.operator,
+            right=new_right,
+            lpar=node.lpar,
+            rpar=node.rpar,
         )
